@@ -29,7 +29,9 @@ func watchLoop(r *core.Run, cnt *counters) {
 	if r.Thorough() {
 		cases = append(cases,
 			wcase{[]Edit{{Op: "write", P: "entry", V: "2"}, {Op: "write", P: "entry", V: "1"}, {Op: "delete", P: "xjs"}}, false, false},
-			wcase{[]Edit{{Op: "cfg", P: "pkg", F: map[string]string{"sideEffects": "false"}}, {Op: "create", P: "dfile", V: "1"}, {Op: "tofile", P: "d", V: "1"}}, true, false},
+			wcase{[]Edit{{Op: "cfg", P: "pkg", F: map[string]string{"sideEffects": "false"}}, {Op: "create", P: "dfile", V: "1"}, {Op: "delete", P: "dfile"}}, true, false},
+			// known finding unwatched:kind:d through the real loop (d.js shadows the directory d, then d becomes a file)
+			wcase{[]Edit{{Op: "create", P: "dfile", V: "1"}, {Op: "tofile", P: "d", V: "1"}}, false, true},
 			wcase{[]Edit{{Op: "cfg", P: "nmpkg", F: map[string]string{"main": "main2"}}, {Op: "delete", P: "tsc"}}, true, false},
 		)
 	}
@@ -73,7 +75,7 @@ func watchLoop(r *core.Run, cnt *counters) {
 			}
 			prev := sigOf(dir, api.Build(freshOpts))
 			hist := ""
-			for _, e := range wc.edits {
+			for ei, e := range wc.edits {
 				if err := pr.apply(e); err != nil {
 					r.Infra("watch loop: edit %s: %v", e.String(), err)
 					return
@@ -86,7 +88,8 @@ func watchLoop(r *core.Run, cnt *counters) {
 					continue
 				}
 				wait := 90 * time.Second
-				if wc.knownMiss {
+				known := wc.knownMiss && ei == len(wc.edits)-1
+				if known {
 					wait = 8 * time.Second
 				}
 				select {
@@ -102,7 +105,7 @@ func watchLoop(r *core.Run, cnt *counters) {
 						}
 					}
 				case <-time.After(wait):
-					if wc.knownMiss {
+					if known {
 						mu.Lock()
 						confirmed++
 						mu.Unlock()
